@@ -13,6 +13,9 @@ for d in sorted(glob.glob('/tmp/seed_C*') + glob.glob('/tmp/seed2_C*') +
     rnd = '2' if b.startswith('seed2_') else ('3' if b.startswith('seed3_')
                                               else '')
     pid = os.path.basename(d).split('_')[1]
+    if os.environ.get('IMPORT_ONLY') and \
+            pid not in os.environ['IMPORT_ONLY'].split(','):
+        continue
     for v in 'abc':
         pf = os.path.join(d, 'patch_%s.diff' % v)
         df = os.path.join(d, 'demo_%s.py' % v)
